@@ -379,6 +379,7 @@ def run_shard(ctx):
             fl, thresh, babel = doc
             m = c12.M('en-GB')
             c12.apply_babel(m, babel)
+            m.src += '\\newcommand{\\zzoa}[1][]{}\n'
             c12.rend(m, fl, True)
             src = m.src + '\n'
             if not m.words:
